@@ -514,7 +514,37 @@ def utils_instance(k):
         if m.__file__ != path or m is L.utils or m._process_start_wrapper is L.utils._process_start_wrapper:
             raise HarnessError("second instance of utils.py is not separate")
         _INSTANCES[k] = m
+        _PRISTINE[m] = _snap_globals(m)
     return m
+
+
+_PRISTINE = {}      # utils instance -> (names at import, {name: simple value at import})
+
+
+def _snap_globals(mod):
+    ns = vars(mod)
+    return frozenset(ns), {k: v for k, v in ns.items()
+                           if not (k.startswith("__") and k.endswith("__")) and world._is_simple(v)}
+
+
+def restore_pristine(mod):
+    """Every simple-valued global of a utils instance back to its import-time value, names that did
+    not exist at import deleted: no library state (e.g. a flag a changed library adds) survives
+    from one execution - or one simulated process - into the next.  Harness seams are re-applied by
+    the caller."""
+    snap = _PRISTINE.get(mod)
+    if snap is None:
+        ws = getattr(world, "_lib_snap", {}).get(id(mod))      # the library's own module: import-time snapshot
+        snap = (ws[1], dict(ws[2])) if ws is not None else _snap_globals(mod)
+        _PRISTINE[mod] = snap
+    names, simple = snap
+    ns = vars(mod)
+    for k in [k for k in ns if k not in names]:
+        del ns[k]
+    for k, v in simple.items():
+        cur = ns.get(k, _MISSING)
+        if cur is not v and (cur != v or type(cur) is not type(v)):
+            ns[k] = v
 
 
 def patch_instance(mod, tty):
@@ -528,6 +558,7 @@ def patch_instance(mod, tty):
         saved["start_wrapped"] = mod._process_start_wrapper.__dict__.get("__wrapped__", _MISSING)
         saved["run_wrapped"] = mod._process_run_wrapper.__dict__.get("__wrapped__", _MISSING)
         _SAVED[mod] = saved
+    restore_pristine(mod)
     mod.RLock = HThreadLock
     mod.mp_RLock = HProcLock
     mod._rlock_type = HThreadLock
@@ -556,6 +587,7 @@ def import_state(mod):
 
 def restore_instances():
     for mod, saved in list(_SAVED.items()):
+        restore_pristine(mod)
         for g, v in saved.items():
             if g == "start_wrapped":
                 tgt, key = mod._process_start_wrapper, "__wrapped__"
@@ -648,9 +680,12 @@ class ProcModel:
                 setattr(child, g, v.fork_copy(me, task) if isinstance(v, HThreadLock) else v)
             v = parent._cell_size_cache
             child._cell_size_cache = list(v) if isinstance(v, list) else v
-            for g in _FORK_COPIED:
-                setattr(child, g, getattr(parent, g))
+            for g, v in list(vars(parent).items()):      # every plain value is copied with the memory
+                if not (g.startswith("__") and g.endswith("__")) and world._is_simple(v):
+                    setattr(child, g, v)
         elif method == "spawn":
+            restore_pristine(child)                       # a fresh import ...
+            child._tty_fd = world.TTY_FD                  # ... that found the same terminal
             import_state(child)
         else:
             raise HarnessError(f"start method {method!r}")
